@@ -237,15 +237,16 @@ theorem walk_step (ds : DblSem) (rd : Nat → Cell) {vars : Nat → Cell} (lf : 
     (hsrc : ∀ w ∈ lf.vars, rd w = vars w ∧ w < nslots) :
     ∀ (p : List Step) (h : Heap) (e : Nat → Nat) (g : Nat → Val) (c : Cell), Held h vars e g c → ∀ y,
       updPath p ((lf.eval (fun w => absCell g (vars w))).apply ds) (absCell g c) = some y →
-      ∀ f, liveCount h + p.length + 2 < f →
-      ∃ h' c' g', walkMut f ds rd h c p lf = some (h', c') ∧ CellStep h vars e g c y (p.length + 2) h' c' g' := by
+      ∀ f, liveCount h + p.length + leafSize lf + 1 < f →
+      ∃ h' c' g', walkMut f ds rd h c p lf = some (h', c') ∧
+        CellStep h vars e g c y (p.length + leafSize lf + 1) h' c' g' := by
   intro p
   induction p with
   | nil =>
     intro h e g c hd y hy f hf
     simp only [updPath] at hy
     obtain ⟨h', c', g', r, st⟩ := leaf_step ds rd hd lf hsup hsrc y hy f (by simpa using hf)
-    exact ⟨h', c', g', by simp only [walkMut]; exact r, st⟩
+    exact ⟨h', c', g', by simp only [walkMut]; exact r, st.mono _ (by simp)⟩
   | cons st p ih =>
     intro h e g c hd y hy f hf
     have i := hd.inv
